@@ -753,6 +753,10 @@ func (t *tr) havocModifies(con *Contract, sc *specCtx, pre Env, pos token.Pos) {
 		}
 		for _, v := range t.allVars {
 			if v.Heap && !keep[v] {
+				if strings.HasPrefix(v.Name, "G$") && v.T != nil && types.TypeString(v.T, nil) == "error" {
+					// package-level error variables (sentinels such as sliceio.EOF) are treated as constants
+					continue
+				}
 				t.fresh(v)
 			}
 		}
